@@ -17,6 +17,9 @@ func VerifH_bgzf_writer_faults() {
 	sink := &verifSink{}
 	sink.failAt = vrt.Choice("failAt", vrt.Param("FAILS", 3))
 	sink.partial = vrt.Choice("partial", 2)
+	if vrt.Param("TRANSIENT", 0) == 1 {
+		sink.once = true // the sink recovers after one failed call
+	}
 	w := NewWriter(sink, wc)
 	CALLS := vrt.Param("CALLS", 3)
 	MAXW := vrt.Param("MAXW", 2*BlockSize+2)
@@ -50,9 +53,9 @@ func VerifH_bgzf_writer_faults() {
 	if err == nil {
 		// nothing failed: the stream must be complete and marked
 		vrt.Assert(len(sink.data) >= len(magicBlock) && bytes.Equal(sink.data[len(sink.data)-len(magicBlock):], []byte(magicBlock)), "clean-close-writes-marker")
-	} else {
-		has := len(sink.data) >= len(magicBlock) && bytes.Equal(sink.data[len(sink.data)-len(magicBlock):], []byte(magicBlock))
-		_ = has
+	} else if len(sink.data) >= len(magicBlock) {
+		// C08: the stream ends with the EOF marker only if Close returned nil
+		vrt.Assert(!bytes.Equal(sink.data[len(sink.data)-len(magicBlock):], []byte(magicBlock)), "no-EOF-marker-after-failed-Close")
 	}
 	vrt.Assert(vrt.LiveTasks() == 0, "no-goroutine-left-after-Close")
 	vrt.Reach("end")
